@@ -16,7 +16,8 @@ import itertools
 import warnings
 import numpy as np
 import z3
-from ndvc import solve
+from ndvc import solve, xcheck
+from fractions import Fraction
 from ndvc.sym import R, C, real, lift, CTX, explore, NeedsConcrete, SQRT
 from ndvc.arr import SymArr, asobj, wrap
 from ndvc.overlay import PINV_LOG
@@ -84,6 +85,36 @@ class StubGen(object):
 
     def __call__(self):
         return iter(self.steps())
+
+
+def native_jac(klass, method, order, An, bn, xn, hn, K):
+    """the harness of run_jac on floats: affine f, geometric steps h_j * 2**-i, _extrapolate replaced by `row 0`"""
+    def run():
+        import numdifftools as nd
+        from numdifftools.multicomplex import Bicomplex
+
+        def f(x):
+            if isinstance(x, Bicomplex):
+                return Bicomplex(np.dot(An, x.z1) + bn, np.dot(An, x.z2))
+            return np.dot(An, x) + bn
+
+        class G(object):
+            step_ratio = 2.0
+
+            def step_generator_function(self, x, method='forward', n=1, order=2):
+                return self
+
+            def __call__(self):
+                return iter([hn * 0.5 ** i for i in range(K)])
+        obj = getattr(nd, klass)(f, step=G(), method=method, order=order, full_output=True)
+
+        def spy(results, steps, shape):
+            return results[0].reshape(shape), nd.limits._Limit.info(np.zeros(results[0].shape).reshape(shape), steps[0].reshape(shape), np.arange(results.shape[1]))
+        obj._extrapolate = spy
+        with warnings.catch_warnings():
+            warnings.simplefilter('ignore')
+            return obj(xn)[0]
+    return run
 
 
 def affine(m, n, k, mc):
@@ -154,6 +185,19 @@ def run_jac(method, dimlist, orders):
                     out, inf = paths[0].value
                     res, steps, shape = cap['t']
                     H = paths[0].hyps
+                    # engine cross-check: the same class, method and stubs on floats, without the overlay
+                    asg = {'q': Fraction(1, 2)}
+                    for j in range(n):
+                        asg['x%d' % j] = Fraction(3 * j - 2, 7); asg['h%d' % j] = Fraction(j + 2, 16)
+                    An = np.zeros(np.shape(A)); bn = np.zeros(np.shape(b))
+                    for ii, idx in enumerate(np.ndindex(np.shape(A))):
+                        An[idx] = ((7 * ii) % 11 - 5) / 4.0 + 0.125; asg[str(A[idx].t)] = Fraction(float(An[idx]))
+                    for ii, idx in enumerate(np.ndindex(np.shape(b))):
+                        bn[idx] = ((3 * ii) % 5 - 2) / 2.0; asg[str(b[idx].t)] = Fraction(float(bn[idx]))
+                    xcheck.defer(tag + 'engine==CPython(%s)' % klass, out, asg,
+                                 native_jac(klass, method, order, An, bn, np.array([float(asg['x%d' % j]) for j in range(n)]),
+                                            np.array([float(asg['h%d' % j]) for j in range(n)]), 6 if order == 2 else 8),
+                                 pinv_log=list(PINV_LOG), rtol=1e-7, atol=1e-9)
                     for (M, P) in PINV_LOG:
                         T = M.shape[0]
                         for i in range(T):
@@ -201,6 +245,7 @@ def run_jac(method, dimlist, orders):
                             solve.prove(tag + 'S:result%s==A-entry' % (idx,), lift(outa[idx]).t == want.t, H)
                     if (m, n, k) == (2, 3, None) and order == 2:
                         solve.twin(tag + 'result[0,1]==A[1,0]', lift(outa[0, 1]).t == A[1, 0].t, H)
+    xcheck.flush()
     return info
 
 
